@@ -1,5 +1,5 @@
 """C05 - no lost wake-ups: every input change reaches every dependent controller."""
-import vlib, rtlib
+import vlib, rtlib, pipelib
 
 WHATS = {"lost-wakeup", "lost-wakeup-queue", "mapped-change-not-propagated", "reconcile-of-unknown-controller",
          "valid-registration-rejected", "run-did-not-return-after-cancel"}
@@ -8,9 +8,11 @@ WHATS = {"lost-wakeup", "lost-wakeup-queue", "mapped-change-not-propagated", "re
 def run(ctx):
     quick = ctx.tier == "quick"
     rtlib.model_check(ctx, ["A", "B", "F", "N"] if quick else rtlib.MC_CFGS)
-    behs, out = rtlib.drive(ctx, ["A", "B", "C", "D", "E", "F"], 180 if quick else 3000, 70 if quick else 110)
+    behs, out = rtlib.drive(ctx, ["A", "B", "C", "D", "E", "F"], 180 if quick else 3000, 70 if quick else 110, hook_prop="C05")
     recs, traces, bad = rtlib.judge(ctx, behs, out, WHATS, "C05")
     rtlib.selftest(ctx, traces, bad)
+    # the repository's own controller test suites with the pipeline hooks on: every hand-over of the dedup map is judged
+    pipelib.stage(ctx, "C05", ctx.tier)
     ctx.assumptions += [
         "dedup/delivery goroutine steps run eagerly on the real code; batching, controller busy time, failures and late starts are scheduled",
         "quiet = nothing recorded during a 3 min virtual-time window after everything was released",
